@@ -47,6 +47,7 @@ type Case struct {
 	Nodes   []Node          `json:"nodes"`
 	Base    []string        `json:"base,omitempty"`  // req
 	Args    []Req           `json:"args,omitempty"`  // upgrade / downgrade
+	MaxPark float64         `json:"max_park,omitempty"` // probability that the caller-supplied Max callback is a scheduling point
 	Fail    []string        `json:"fail,omitempty"`  // path@version whose callback returns an error
 	Stall   []string        `json:"stall,omitempty"` // callbacks parked until nothing else can run
 	FailUpg []string        `json:"fail_upgrade,omitempty"`
@@ -80,6 +81,11 @@ func (c *Case) Shrinks() []sim.CaseI {
 	for i := range c.Fail {
 		d := c.clone()
 		d.Fail = append(d.Fail[:i], d.Fail[i+1:]...)
+		out = append(out, d)
+	}
+	if c.MaxPark > 0 {
+		d := c.clone()
+		d.MaxPark = 0
 		out = append(out, d)
 	}
 	for i := range c.Stall {
@@ -139,9 +145,11 @@ func (c *Case) Shrinks() []sim.CaseI {
 
 var versionPool = map[string][]string{
 	"v0": {"v0.1.0", "v0.1.1-alpha", "v0.1.1-alpha.1", "v0.1.1-alpha.beta", "v0.1.1-beta", "v0.1.1-beta.2", "v0.1.1-beta.11",
-		"v0.1.1-rc.1", "v0.1.1", "v0.2.0", "v0.9.0", "v0.10.0", "v0.10.1-0", "v0.10.1-0.a", "v0.10.1-a.0", "v0.10.1-1", "v0.10.1-a-b", "v0.10.1-a"},
-	"v1": {"v1.0.0-rc.1", "v1.0.0", "v1.2.0", "v1.2.1-pre.9", "v1.2.1-pre.10", "v1.2.1", "v1.10.0", "v1.9.9"},
-	"v2": {"v2.0.0", "v2.0.1-0", "v2.0.1", "v2.1.0-x.y", "v2.1.0-x", "v2.1.0"},
+		"v0.1.1-rc.1", "v0.1.1", "v0.2.0", "v0.9.0", "v0.10.0", "v0.10.1-0", "v0.10.1-0.a", "v0.10.1-a.0", "v0.10.1-1", "v0.10.1-a-b", "v0.10.1-a",
+		// identifiers that are alphanumeric as a whole but end in digits (lexical, not "natural", order), hyphens inside identifiers
+		"v0.3.0-rc9", "v0.3.0-rc10", "v0.3.0-rc1b", "v0.3.0-2024-9", "v0.3.0-2024-10", "v0.3.0-9", "v0.3.0-10", "v0.3.0-9a", "v0.3.0"},
+	"v1": {"v1.0.0-rc.1", "v1.0.0", "v1.2.0", "v1.2.1-pre.9", "v1.2.1-pre.10", "v1.2.1-pre9", "v1.2.1-pre10", "v1.2.1", "v1.10.0", "v1.9.9"},
+	"v2": {"v2.0.0", "v2.0.1-0", "v2.0.1", "v2.1.0-x.y", "v2.1.0-x", "v2.1.0", "v2.1.0-x-1", "v2.1.0-x-10", "v2.1.0-x-2"},
 }
 
 const mainPath = "main.test@v0"
@@ -242,6 +250,7 @@ func gen(seed uint64, tier string, idx int) sim.CaseI {
 	}
 	// knobs
 	c.Procs = []int{1, 2, 4, 32}[kr.Intn(4)]
+	c.MaxPark = []float64{0, 0.05, 0.2, 0.5}[kr.Intn(4)]
 	c.Sched = sim.SchedConfig{Seed: sim.Mix(seed, 3)}
 	switch kr.Intn(10) {
 	case 0:
@@ -491,6 +500,7 @@ type simReqs struct {
 	maxFly   int
 	returned map[module.Version]bool
 	nopark   bool
+	maxPark  float64
 }
 
 func (r *simReqs) call(site string, m module.Version) {
@@ -508,6 +518,16 @@ func (r *simReqs) call(site string, m module.Version) {
 	}
 	r.s.Park(kind, site, m.String())
 	r.inflight--
+}
+
+// Max is a callback of the Reqs interface like Required: the traversal may
+// not assume that it is instantaneous, so it is a (probabilistic) scheduling
+// point too. The comparison itself is the real module.Versions.Max.
+func (r *simReqs) Max(v1, v2 string) string {
+	if !r.nopark && r.maxPark > 0 && r.s.Cur() != nil && r.s.Coin(r.maxPark) {
+		r.s.Park(sim.KYield, "Max", v1+" "+v2)
+	}
+	return r.Versions.Max(v1, v2)
 }
 
 func (r *simReqs) Required(m module.Version) ([]module.Version, error) {
@@ -620,7 +640,7 @@ func exec(t *testing.T, ci sim.CaseI, choices []uint32, keepLog bool) *sim.Outco
 		cfg.MaxSteps = 20000
 	}
 	s := sim.NewSched(cfg, keepLog)
-	r := &simReqs{u: u, s: s, fail: set(c.Fail), failUpg: set(c.FailUpg), stall: set(c.Stall), faults: map[string]int{}, counters: map[string]int{}, returned: map[module.Version]bool{}}
+	r := &simReqs{u: u, s: s, maxPark: c.MaxPark, fail: set(c.Fail), failUpg: set(c.FailUpg), stall: set(c.Stall), faults: map[string]int{}, counters: map[string]int{}, returned: map[module.Version]bool{}}
 	old := runtime.GOMAXPROCS(0)
 	if c.Procs > 0 {
 		runtime.GOMAXPROCS(c.Procs)
